@@ -39,13 +39,19 @@ def _parse_command_line(cli_args = None):
   return p, args
 
 def _create_override_tuple(key, has_value = True):
-  # TODO: Error handling for malformed options
+  item = key
   if has_value:
+    if not "=" in key:
+      raise ConfigurationException("'{}' is not of the form SECTION_NAME:KEY=VALUE".format(item))
     key, value = key.split("=", 1)
   else:
     value = None
   # Split at the last colon: section names may contain colons themselves ([Table-Form:NAME]), keys can't.
+  if not ":" in key:
+    raise ConfigurationException("'{}' is not of the form SECTION_NAME:KEY{}".format(item, "=VALUE" if has_value else ""))
   section,key = key.rsplit(":", 1)
+  if not section.strip() or not key.strip():
+    raise ConfigurationException("'{}' is not of the form SECTION_NAME:KEY{}".format(item, "=VALUE" if has_value else ""))
   retval = ConfigParserOverrideTuple(section = section, key = key, value = value)
   return retval
 
